@@ -21,6 +21,9 @@ CHECKS = {
     'C18': ('fault_enumeration', 'reference run vs runs continued from a pickle / deepcopy snapshot taken at every (quick: sampled) macro-step boundary', 'differential property testing (Hypothesis) over snapshot points'),
     'C11': ('exploration', 'round-trip: structure comparison, == clause, idempotence and behavioural equality of original / re-import / re-re-import over generated text-heavy charts', 'round-trip property testing (Hypothesis)'),
     'C12': ('fault_enumeration', 'independent validator of the listed rules decides accept/reject for every single-fault (thorough: pair) variant of generated valid documents; accepted charts are re-checked for structural soundness', 'property-based testing (Hypothesis) + fault-operator enumeration against an independent validator'),
+    'C14': ('exploration', 'exact (Fraction) clock model over operation sequences with a scripted real-time source; SynchronizedClock compared with the last step time', 'model-based property testing (Hypothesis) over operation sequences'),
+    'C16': ('exploration', 'dict-based edit model applies the documented effect of each call; public observation compared after every operation, failed edits must change nothing', 'model-based stateful property testing (Hypothesis) over edit sequences'),
+    'C17': ('exploration', 'metamorphic: run of the renamed chart == original run with names substituted; host run == guest run mapped by the renaming function', 'metamorphic property testing (Hypothesis)'),
 }
 NOT_YET = 'check not built yet in this round (planned, see DESIGN.md section 4)'
 
